@@ -49,7 +49,7 @@ def try_bitblast(pc, goal, rlimit):
 def discharge(ob, tier="quick", want_model=True):
     """sets ob.status in {'proved','failed','unknown'}"""
     t0 = time.time()
-    rl = RL_QUICK if tier == "quick" else RL_THOROUGH
+    rl = {"quick": RL_QUICK, "thorough": RL_THOROUGH, "canary": 3_000_000}[tier]
     goal = ob.goal
     if z3.is_true(z3.simplify(goal)):
         ob.status, ob.backend, ob.time = "proved", "simplifier", time.time() - t0
@@ -75,6 +75,9 @@ def discharge(ob, tier="quick", want_model=True):
     else:
         ob.status = "unknown"
         ob.detail = s.reason_unknown()
+        if tier == "canary":
+            ob.time = time.time() - t0
+            return ob
         if try_bitblast(ob.pc, goal, rl) == z3.unsat:
             ob.status, ob.backend = "proved", "z3-%s(api, bit-blast tactic)" % z3.get_version_string()
             ob.time = time.time() - t0
@@ -85,8 +88,8 @@ def discharge(ob, tier="quick", want_model=True):
         except Exception:
             smt = None
         if smt:
-            for cmd, name in (([CVC5, "--lang=smt2", "--tlimit=20000", "--strings-exp", "--arrays-exp"], "cvc5-1.0.3"),
-                              ([Z3_OLD, "-smt2", "-T:20"], "z3-4.8.12(cli)")):
+            for cmd, name in (([CVC5, "--lang=smt2", "--tlimit=10000", "--strings-exp", "--arrays-exp"], "cvc5-1.0.3"),
+                              ([Z3_OLD, "-smt2", "-T:10"], "z3-4.8.12(cli)")):
                 res = _run_cli(cmd, smt)
                 if res == "unsat":
                     ob.status, ob.backend = "proved", name
